@@ -432,6 +432,9 @@ var c10Corpus = func() []c10Case {
 	return []c10Case{
 		// D47: a case-insensitive fixed-count loop expanded into a string of its count (Compile took minutes)
 		{PatHex: h("a{2147482647}a{1000}"), Opts: int32(regexp2.IgnoreCase), InHex: h("aaa"), ReplHex: h("x"), Count: -1},
+		// D50: RE2 (?P=name) right after (?( panicked in the tree analyses
+		{PatHex: h("(?<n>a)(?(?P=n)b)"), Opts: int32(regexp2.RE2), InHex: h("aab"), ReplHex: h("$1"), Count: -1},
+		{PatHex: h("(?(?P=n)b|c)(?P<n>a)"), Opts: int32(regexp2.RE2), InHex: h("ca"), ReplHex: h("x"), Count: -1},
 		{PatHex: h("aa{2147483646}"), Opts: int32(regexp2.IgnoreCase | regexp2.Multiline | regexp2.ECMAScript), InHex: h("aaa"), ReplHex: h("$&"), Count: -1},
 	}
 }()
